@@ -25,7 +25,10 @@ CLAIMED = {
              "(run_eq_of_spec_eq, root_depends_only_on_contents, root_batched), the empty mapping has the blank root, which is "
              "BLANK_NODE_HASH for Keccak (kernel-evaluated). Conformance of the model's rlp/hex-prefix/Keccak encoding with the "
              "Yellow Paper is pinned by four ethereum/tests roots + constants on every run and by an independent Yellow-Paper "
-             "oracle in the harness; the theorem tree = c(J,0) is not proved. Tie: root after every operation.",
+             "oracle in the harness. Conformance proper is proved: the raw node structure of every reachable trie IS the Yellow Paper's "
+             "c(J,i)/n(J,i) construction applied to its contents and the root hash is TRIE(contents), for every H "
+             "(root_is_yellow_paper_trie, node_is_yellow_paper_c, ref_is_yellow_paper_n; HP = Yellow Paper HP is C16); what remains "
+             "unproved is only that the model's rlp/Keccak-256 are the real ones (external vectors). Tie: root after every operation.",
         technique="Lean 4 proof (canonical-form uniqueness) + correspondence check with external test vectors",
         design_ref="6/C02"),
     "C05": dict(
@@ -42,9 +45,13 @@ CLAIMED = {
         text="Theorems for every hashing: the effect-instrumented setE/deleteE compute set/delete (deleteE on canonical trees) and "
              "satisfy the reference-count balance for every hash (occurrences gained = persists, lost = prunes), including "
              "normalisation, extension merging and the reference-unchanged short-circuits, under the run-level hypothesis RefSound "
-             "(no collision in this run; no injectivity assumed). The lift through _complete_pruning / batches to 'db keys = live "
-             "nodes, counts = occurrences' is tied by the correspondence check (exact key set, counts, regenerate_ref_count after "
-             "every operation) and the oracle; the world-level theorem is future work.",
+             "(no collision in this run; no injectivity assumed). World level: the invariant 'for every hash, ref_count = number of "
+             "hashed subtrees with that hash below the root + 1 for the root, and the database contains a key iff that number is "
+             "positive' holds initially and is re-established by every set/delete through _prune_on_success/_set_db_value/"
+             "_set_root_node/_complete_pruning, which never raise on such a state (prune_invariant_step, reach_invariant over whole "
+             "histories); regenerate_ref_count computes exactly these numbers (regenerate_is_true_count, keccak_embedded). Batches "
+             "(ScratchDB read-through) are tied by the correspondence check (exact key set, counts, regenerate_ref_count after every "
+             "operation, all exit kinds) and the oracle.",
         technique="Lean 4 proof (structural induction, balance invariant) + correspondence check",
         design_ref="6/C06"),
     "C03": dict(
@@ -90,9 +97,10 @@ CLAIMED = {
              "nothing (set_delete_append_only); the squash_changes commit of a non-pruning trie likewise for every prefix of the "
              "commit loop (batch_commit_append_only); a failed operation leaves all root pointers (failed_op_keeps_roots); preserved "
              "bindings keep a historical root fully readable through the Layer-D reader (old_root_still_readable, with C03's "
-             "getD_of_path). Not yet proved: that each successful operation establishes Resolves for the new root's path nodes "
-             "(completeness invariant) - tied by the correspondence (exact db after every step, every old root re-read through a "
-             "fresh trie and at_root, reads via the Lean Layer-D reader on the model's own db).",
+             "getD_of_path); completeness invariant: a set/delete on a complete database never raises, computes the tree operation, "
+             "preserves all bindings and leaves every hashed node of the new root stored (op_keeps_complete, under the per-operation "
+             "NoClobber predicate), and completeness of any root survives all later growth (complete_survives). Tie: exact db after every "
+             "step, every old root re-read through a fresh trie and at_root, reads via the Lean Layer-D reader on the model's own db.",
         technique="Lean 4 proof (invariants of the world executor, any fault position) + correspondence check with fault injection",
         design_ref="6/C04"),
     "C11": dict(
